@@ -5,6 +5,7 @@ CONSTANTS
   Garbage <- GarbageDef
   SharedScratch = FALSE
   LenBeforeWrite = TRUE
+  Memo = "none"
 SPECIFICATION Spec
 INVARIANT Pure
 INVARIANT PeekPure
